@@ -148,6 +148,11 @@ func (k *msgServer) MsgAllocate(c context.Context, msg *types.MsgAllocateRequest
 		return nil, err
 	}
 
+	// The sender cannot allocate to itself: both allocations would be the same record.
+	if fromAddr.Equals(toAddr) {
+		return nil, types.NewErrorInvalidAllocation(subscription.GetID(), toAddr)
+	}
+
 	// Get the existing allocation for the receiver.
 	toAlloc, found := k.GetAllocation(ctx, subscription.GetID(), toAddr)
 	if !found {
@@ -173,7 +178,7 @@ func (k *msgServer) MsgAllocate(c context.Context, msg *types.MsgAllocateRequest
 	}
 
 	// Update the allocation for the sender after deducting the allocated bytes.
-	fromAlloc.GrantedBytes = availableBytes.Sub(msg.Bytes)
+	fromAlloc.GrantedBytes = grantedBytes.Sub(msg.Bytes)
 	if fromAlloc.GrantedBytes.LT(fromAlloc.UtilisedBytes) {
 		return nil, types.NewErrorInvalidAllocation(subscription.GetID(), fromAddr)
 	}
